@@ -547,6 +547,12 @@ theorem arrayDoc_extras (d : ArrayDoc) (hk : ∀ kv ∈ d.extra, kv.1 ∉ arrayK
   intro kv hkv
   exact (arrayDoc_knownKeys_sublist d).subset (List.mem_map_of_mem hkv)
 
+theorem lookup_ite_ne (c : Prop) [Decidable c] (k' : Str) (v : J) (k : Str) (h : (k' == k) = false) :
+    lookup (if c then [] else [(k', v)]) k = none := by
+  split
+  · rfl
+  · rw [lookup_cons_ne _ _ _ _ h]; rfl
+
 theorem arrayDoc_kvs_of (d : ArrayDoc) (hsh : ∀ t ∈ d.shape, isU64Tok t = true)
     (he : ∀ kv ∈ d.extra, kv.1 ∉ arrayKeys) (hx : extrasOf arrayKeys d.kvs = d.extra) : ArrayDocOf d.kvs d := by
   have hE : ∀ k ∈ arrayKeys, lookup (extraKVs d.extra) k = none := fun k hk =>
@@ -563,16 +569,15 @@ theorem arrayDoc_kvs_of (d : ArrayDoc) (hsh : ∀ t ∈ d.shape, isU64Tok t = tr
   · simp (disch := decide) only [ArrayDoc.kvs, ArrayDoc.knownKVs, lookup_append, lookup_cons_eq, lookup_cons_ne, Option.some_or]
   · simp (disch := decide) only [ArrayDoc.kvs, ArrayDoc.knownKVs, lookup_append, lookup_cons_eq, lookup_cons_ne, Option.some_or]
   · have := hE (ascii "attributes") (by decide)
-    cases attrs <;> cases st <;> cases dimNames <;>
-    simp (disch := decide) [ArrayDoc.kvs, ArrayDoc.knownKVs, lookup_append, lookup_cons_eq, lookup_cons_ne, lookup_nil, this]
+    cases attrs <;> cases dimNames <;>
+    simp (disch := decide) [ArrayDoc.kvs, ArrayDoc.knownKVs, lookup_append, lookup_cons_eq, lookup_cons_ne, lookup_nil, this, lookup_ite_ne]
   · have := hE (ascii "storage_transformers") (by decide)
-    cases attrs <;> cases st <;> cases dimNames <;>
-    simp (disch := decide) [ArrayDoc.kvs, ArrayDoc.knownKVs, lookup_append, lookup_cons_eq, lookup_cons_ne, lookup_nil, this]
+    cases st <;> cases dimNames <;>
+    simp (disch := decide) [ArrayDoc.kvs, ArrayDoc.knownKVs, lookup_append, lookup_cons_eq, lookup_cons_ne, lookup_nil, this, lookup_ite_ne]
     all_goals exact metaList_toJ (_ :: _)
   · have := hE (ascii "dimension_names") (by decide)
-    cases attrs <;> cases st <;> cases dimNames <;>
-    simp (disch := decide) [ArrayDoc.kvs, ArrayDoc.knownKVs, lookup_append, lookup_cons_eq, lookup_cons_ne, lookup_nil, this, dimNames_roundtrip]
-
+    cases dimNames <;>
+    simp (disch := decide) [ArrayDoc.kvs, ArrayDoc.knownKVs, lookup_append, lookup_cons_eq, lookup_cons_ne, lookup_nil, this, dimNames_roundtrip, lookup_ite_ne]
 /-- the round trip at the JSON level, from the facts it needs -/
 theorem arrayDoc_ofJ_toJ (d : ArrayDoc) (hsh : ∀ t ∈ d.shape, isU64Tok t = true)
     (hk : ∀ kv ∈ d.extra, kv.1 ∉ arrayKeys) (hs : sortedKeys d.extra) (ha : ∀ kv ∈ d.extra, AField.shapeOk kv.2) :
